@@ -19,20 +19,31 @@
     idempotent ........................ simplify_idem
     keeps every observed node ......... simplify_keeps_observed
     read-off graph = projection ....... simplify_projection (rule1..rule4_*_sameProj, fromLV_is_projection)
-    separation unchanged .............. simplify_dsep_invariant, dsep_iff_msep_projection, simplify_msep_invariant
-    verdicts from the projection ...... verdict_invariant
+    separation unchanged .............. simplify_dsep_invariant, dsep_iff_msep_projection, simplify_msep_invariant (walks)
+      with the textbook PATH definition  dconn_walk_iff_path, mconn_walk_iff_path, simplify_dsep_invariant_path,
+      of C04 and the C04 model ........  dsep_iff_msep_projection_path, lvdag_dsep_model_eq_projection,
+                                         simplify_preserves_dsep_model, simplify_dsep_verdict_iff_no_path
+    identifiability unchanged ......... id_verdict_equiv_congr (ID model of C02 respects `__eq__`, any topological
+                                         orders), simplify_id_verdict, evans_id_verdict, evans_id_verdict_latents
+    verdicts from the projection ...... verdict_invariant (any function respecting `__eq__`)
+    taheri_design._get_result ......... design_result, design_keyError
     evans_simplify .................... evans_projection, evans_id
-  Nothing is `_partial`; the one classical fact that is used informally when reading the separation
-  theorems (walk formulation = path formulation) is listed as OPEN at the end of section 2b.
+  Nothing is `_partial`.  The separation theorems of section 2b are proved for the walk formulation; section 2c
+  proves it equal to the simple-path definition `MG.MConnPath` of Y0/Spec/SepSpec.lean (the one property C04
+  is stated with) and restates the clause with it and with the executable C04 model `MG.dSeparated`.
 -/
 import Y0.Lemmas.LatentOfMG
 import Y0.Lemmas.LatentSimplify
 import Y0.Lemmas.LatentEvans
 import Y0.Lemmas.LatentSepRule1
 import Y0.Lemmas.LatentMsep
+import Y0.Lemmas.LatentPath
+import Y0.Props.C04
+import Y0.Props.C02
+import Y0.Lemmas.LatentIdCongr
 
 namespace Y0.LV
-open MG
+open MG IdCongr
 
 /-! ## 1. ADMG → LV-DAG → ADMG -/
 
@@ -221,13 +232,162 @@ theorem simplify_msep_invariant (prime : Nat → Nat) (hp : ∀ n, n < prime n) 
   obtain ⟨G, hG, hproj⟩ := simplify_projection prime hp D hw ha r h
   exact ⟨G, hG, (dsep_iff_msep_projection prime hp D hw ha G hproj Z a b hZ hoa hob hab).symm⟩
 
--- OPEN: (classical, generic graph theory, not specific to y0; not mechanised; cross-checked by the
---   harness oracle on every generated case by enumerating simple paths)
---   theorem dconn_walk_iff_path : D.Acyclic → (D.DConn Z a b ↔ ∃ a simple path a = x₀, …, xₙ = b in the
---     skeleton of D on which every collider has a descendant-or-self in Z and every other inner node is
---     outside Z),  and the same statement for `MConnMixed`.
---   The theorems above are complete statements about the walk formulation, which is a standard
---   definition of d-/m-connection; only the translation to the path formulation is left to the literature.
+/-! ## 2c. the separation clause with the textbook definition property C04 is stated with
+
+`G.MConnPath a b C` (Y0/Spec/SepSpec.lean) is the textbook definition: an m-connecting PATH, no node visited
+twice, every collider an ancestor of `C`, every other inner node outside `C`; for a graph without
+bidirected edges this is d-connection.  `D.asMG` is the LV-DAG as such a graph: all nodes (latents
+included), the directed edges, no bidirected edge.  The walk formulation used in 2b is proved equal to
+it (`dconn_walk_iff_path`, `mconn_walk_iff_path`; the walk → path shortening is Lemmas/SepPath.lean of the
+`sep` family), so the theorems of 2b can be restated with `MConnPath`, and with the verdict of the
+executable C04 model `MG.dSeparated` (= `are_d_separated`), which C04 proves equal to `¬ MConnPath`. -/
+
+/-- **walk formulation = path formulation**, LV-DAG: `D.DConn` (walks, `Reach`) is d-connection by a
+simple path in the directed graph `D.asMG` -/
+theorem dconn_walk_iff_path (D : LV) (C : List Nat) (a b : Nat) (hab : a ≠ b) (ha : a ∉ C) (hb : b ∉ C) :
+    D.DConn (fun z => z ∈ C) a b ↔ D.asMG.MConnPath a b C :=
+  dconn_iff_mconnPath_asMG D C a b hab ha hb
+
+/-- **walk formulation = path formulation**, mixed graph: `MConnMixed` (walks, `MixedReach`) is
+m-connection by a simple path -/
+theorem mconn_walk_iff_path (G : MG Nat) (C : List Nat) (a b : Nat) (hab : a ≠ b) (ha : a ∉ C) (hb : b ∉ C) :
+    MConnMixed G (fun z => z ∈ C) a b ↔ G.MConnPath a b C :=
+  mconnMixed_iff_mconnPath G C a b hab ha hb
+
+/-- `simplify_dsep_invariant` with the textbook definition: the simplified DAG and the original DAG have
+the same d-connecting paths between observed nodes given observed conditioning sets -/
+theorem simplify_dsep_invariant_path (prime : Nat → Nat) (hp : ∀ n, n < prime n) (D : LV) (hw : D.WF)
+    (ha : D.Acyclic) (r : SimplifyResults) (h : D.simplify prime = .ok r) (C : List Nat) (a b : Nat)
+    (hC : ∀ c ∈ C, D.Observed c) (hoa : D.Observed a) (hob : D.Observed b) (hab : a ≠ b)
+    (haC : a ∉ C) (hbC : b ∉ C) :
+    r.graph.asMG.MConnPath a b C ↔ D.asMG.MConnPath a b C := by
+  rw [← dconn_walk_iff_path _ C a b hab haC hbC, ← dconn_walk_iff_path _ C a b hab haC hbC]
+  exact simplify_dsep_invariant prime hp D hw ha r h _ a b hC hoa hob hab
+
+/-- `dsep_iff_msep_projection` with the textbook definition: a d-connecting path between two observed
+nodes inside the LV-DAG (through latents) exists iff an m-connecting path exists in the latent projection -/
+theorem dsep_iff_msep_projection_path (D : LV) (hw : D.WF) (ha : D.Acyclic) (G : MG Nat)
+    (hG : IsProjection D G) (C : List Nat) (a b : Nat) (hC : ∀ c ∈ C, D.Observed c)
+    (hoa : D.Observed a) (hob : D.Observed b) (hab : a ≠ b) (haC : a ∉ C) (hbC : b ∉ C) :
+    D.asMG.MConnPath a b C ↔ G.MConnPath a b C := by
+  rw [← dconn_walk_iff_path D C a b hab haC hbC, ← mconn_walk_iff_path G C a b hab haC hbC]
+  exact dsep_iff_msep_projection (· + 1) (fun n => Nat.lt_succ_self n) D hw ha G hG _ a b hC hoa hob hab
+
+/-- two graphs with the same m-connecting paths for a query get the same verdict from the C04 model
+(by C04's `dsep_iff_mseparated`) -/
+theorem dSeparated_eq_of_mconnPath_iff (G H : MG Nat) (hG : G.WF) (hH : H.WF) (a b : Nat) (C : List Nat)
+    (hqG : G.ValidQuery a b C) (hqH : H.ValidQuery a b C) (hab : a ≠ b) (haC : a ∉ C) (hbC : b ∉ C)
+    (h : G.MConnPath a b C ↔ H.MConnPath a b C) : G.dSeparated a b C = H.dSeparated a b C := by
+  obtain ⟨s, hs⟩ := dsep_total G hG a b C hqG haC hbC
+  obtain ⟨t, ht⟩ := dsep_total H hH a b C hqH haC hbC
+  have h1 := dsep_iff_mseparated G hG a b C hqG hab haC hbC s hs
+  have h2 := dsep_iff_mseparated H hH a b C hqH hab haC hbC t ht
+  rw [hs, ht]
+  congr 1
+  have : s = true ↔ t = true := by rw [h1, h2, h]
+  cases s <;> cases t <;> simp_all
+
+/-- **Separation among observed nodes, strongest reading.**  For observed `a ≠ b` and an observed
+conditioning set, the verdict of `are_d_separated` (the C04 model) on the LV-DAG itself — taken as a DAG
+with the latents as ordinary nodes — equals its verdict on any latent projection of the LV-DAG. -/
+theorem lvdag_dsep_model_eq_projection (D : LV) (hw : D.WF) (ha : D.Acyclic) (G : MG Nat)
+    (hG : IsProjection D G) (hGw : G.WF) (C : List Nat) (a b : Nat) (hC : ∀ c ∈ C, D.Observed c)
+    (hoa : D.Observed a) (hob : D.Observed b) (hab : a ≠ b) (haC : a ∉ C) (hbC : b ∉ C) :
+    D.asMG.dSeparated a b C = G.dSeparated a b C :=
+  dSeparated_eq_of_mconnPath_iff D.asMG G (asMG_wf D hw) hGw a b C
+    ⟨hoa.1, hob.1, fun c hc => (hC c hc).1⟩
+    ⟨(hG.nodes a).2 hoa, (hG.nodes b).2 hob, fun c hc => (hG.nodes c).2 (hC c hc)⟩ hab haC hbC
+    (dsep_iff_msep_projection_path D hw ha G hG C a b hC hoa hob hab haC hbC)
+
+/-- **`simplify_preserves_dsep_model`.**  The mixed graph read off the simplified DAG is well formed and,
+for observed `a ≠ b` and observed `C`, `are_d_separated` (the C04 model) gives on it
+  (1) the verdict it gives on any latent projection `G0` of the ORIGINAL DAG,
+  (2) the verdict it gives on the original DAG itself (latents as ordinary nodes), and
+  (3) the verdict it gives on the simplified DAG itself. -/
+theorem simplify_preserves_dsep_model (prime : Nat → Nat) (hp : ∀ n, n < prime n) (D : LV) (hw : D.WF)
+    (ha : D.Acyclic) (r : SimplifyResults) (h : D.simplify prime = .ok r) (C : List Nat) (a b : Nat)
+    (hC : ∀ c ∈ C, D.Observed c) (hoa : D.Observed a) (hob : D.Observed b) (hab : a ≠ b)
+    (haC : a ∉ C) (hbC : b ∉ C) :
+    ∃ G, r.graph.toMG? = .ok G ∧ G.WF ∧
+      (∀ G0 : MG Nat, IsProjection D G0 → G0.WF → G.dSeparated a b C = G0.dSeparated a b C) ∧
+      G.dSeparated a b C = D.asMG.dSeparated a b C ∧
+      G.dSeparated a b C = r.graph.asMG.dSeparated a b C := by
+  obtain ⟨G, hG, hproj⟩ := simplify_projection prime hp D hw ha r h
+  have hGw := toMG?_wf _ G hG
+  obtain ⟨w', a', _, sp⟩ := simplify_spec prime hp D hw ha r h
+  have hproj' : IsProjection r.graph G := ⟨fun v => by rw [hproj.nodes, sp.obs],
+    fun u v => by rw [hproj.di, sp.di], fun u v => by rw [hproj.bi, sp.bi]⟩
+  refine ⟨G, hG, hGw, fun G0 h0 hw0 => ?_, ?_, ?_⟩
+  · exact dsep_equiv_congr G G0 hGw hw0 (hproj.equiv h0) a b C
+  · exact (lvdag_dsep_model_eq_projection D hw ha G hproj hGw C a b hC hoa hob hab haC hbC).symm
+  · exact (lvdag_dsep_model_eq_projection r.graph w' a' G hproj' hGw C a b
+      (fun c hc => (sp.obs c).2 (hC c hc)) ((sp.obs a).2 hoa) ((sp.obs b).2 hob) hab haC hbC).symm
+
+/-- the verdict really is the textbook one: `are_d_separated` on the read-off graph says "separated"
+exactly when no d-connecting path joins `a` and `b` given `C` inside the ORIGINAL LV-DAG -/
+theorem simplify_dsep_verdict_iff_no_path (prime : Nat → Nat) (hp : ∀ n, n < prime n) (D : LV) (hw : D.WF)
+    (ha : D.Acyclic) (r : SimplifyResults) (h : D.simplify prime = .ok r) (C : List Nat) (a b : Nat)
+    (hC : ∀ c ∈ C, D.Observed c) (hoa : D.Observed a) (hob : D.Observed b) (hab : a ≠ b)
+    (haC : a ∉ C) (hbC : b ∉ C) :
+    ∃ G s, r.graph.toMG? = .ok G ∧ G.dSeparated a b C = .ok s ∧ (s = true ↔ ¬ D.asMG.MConnPath a b C) := by
+  obtain ⟨G, hG, hproj⟩ := simplify_projection prime hp D hw ha r h
+  have hGw := toMG?_wf _ G hG
+  have hq : G.ValidQuery a b C :=
+    ⟨(hproj.nodes a).2 hoa, (hproj.nodes b).2 hob, fun c hc => (hproj.nodes c).2 (hC c hc)⟩
+  obtain ⟨s, hs⟩ := dsep_total G hGw a b C hq haC hbC
+  refine ⟨G, s, hG, hs, ?_⟩
+  rw [dsep_iff_mseparated G hGw a b C hq hab haC hbC s hs,
+    dsep_iff_msep_projection_path D hw ha G hproj C a b hC hoa hob hab haC hbC]
+
+/- non-vacuity of 2c: in `exampleDag` (defined below) `2` and `3` are observed, distinct, and joined by
+the d-connecting simple path `2 ← 10 → 11 → 3` — see the examples at the end of the file -/
+
+/-! ## 2d. identifiability verdicts among observed nodes are unchanged
+
+`identify topo G X Y` is the model of `y0.algorithm.identify.identify` (Y0/Model/Id.lean, property C02); `topo`
+stands for `graph.topological_sort()`, whose result depends on insertion order / hash seed, so the theorems
+quantify over EVERY pair of admissible sorters (`TopoGood`: returns a list of exactly the nodes).
+`(identify …).isOk` is the verdict: `true` = an estimand is returned, `false` = `Unidentifiable`
+(`id_total`: nothing else happens on a valid query). -/
+
+/-- **The ID verdict respects `NxMixedGraph.__eq__`** and does not depend on the topological orders used:
+two constructions of the same graph (any insertion order) give the same verdict on every valid query. -/
+theorem id_verdict_equiv_congr {t1 t2 : MG Name → Except Err (List Name)} (ht1 : TopoGood t1) (ht2 : TopoGood t2)
+    (G H : MG Nat) (X Y : List Nat) (hq : ValidQuery G X Y) (hH : H.WF) (h : G.equiv H = true) :
+    (identify t1 G X Y).isOk = (identify t2 H X Y).isOk :=
+  identify_isOk_congr ht1 ht2 hq hH (gsim_of_equiv h) (fun _ => Iff.rfl) (fun _ => Iff.rfl)
+
+/-- the latent projection of an acyclic LV-DAG is acyclic -/
+theorem projection_acyclic {D : LV} {G : MG Nat} (hG : IsProjection D G) (ha : D.Acyclic) : G.Acyclic := by
+  have key : ∀ a b, Relation.TransGen G.DiEdge a b → Relation.TransGen D.Edge a b := by
+    intro a b hab
+    induction hab with
+    | single e => exact ((hG.di _ _).1 e).2.2.transGen
+    | tail _ e ih => exact ih.trans ((hG.di _ _).1 e).2.2.transGen
+  exact fun v hv => ha v (key v v hv)
+
+/-- queries over the observed nodes are valid queries of every latent projection -/
+theorem projection_validQuery {D : LV} {G : MG Nat} (hG : IsProjection D G) (hGw : G.WF) (ha : D.Acyclic)
+    (X Y : List Nat) (hY : ∀ y ∈ Y, D.Observed y) (hne : Y ≠ []) (hdisj : ∀ y ∈ Y, y ∉ X) : ValidQuery G X Y :=
+  ⟨hGw, MG.acyclic_ranked hGw (projection_acyclic hG ha), fun y hy => (hG.nodes y).2 (hY y hy), hne, hdisj⟩
+
+/-- **Identifiability verdicts are unchanged by the simplification.**  For every query over the observed
+nodes, ID run on the mixed graph read off the simplified DAG gives the verdict ID gives on any latent
+projection `G0` of the ORIGINAL DAG (no congruence hypothesis: `id_verdict_equiv_congr`). -/
+theorem simplify_id_verdict (prime : Nat → Nat) (hp : ∀ n, n < prime n) (D : LV) (hw : D.WF) (ha : D.Acyclic)
+    (r : SimplifyResults) (h : D.simplify prime = .ok r) (G0 : MG Nat) (hG0 : IsProjection D G0) (hG0w : G0.WF)
+    {t1 t2 : MG Name → Except Err (List Name)} (ht1 : TopoGood t1) (ht2 : TopoGood t2)
+    (X Y : List Nat) (hY : ∀ y ∈ Y, D.Observed y) (hne : Y ≠ []) (hdisj : ∀ y ∈ Y, y ∉ X) :
+    ∃ G, r.graph.toMG? = .ok G ∧ (identify t1 G X Y).isOk = (identify t2 G0 X Y).isOk ∧
+      (identify t1 G X Y = .error .unidentifiable ↔ identify t2 G0 X Y = .error .unidentifiable) := by
+  obtain ⟨G, hG, hproj⟩ := simplify_projection prime hp D hw ha r h
+  have hGw := toMG?_wf _ G hG
+  have hq := projection_validQuery hproj hGw ha X Y hY hne hdisj
+  have hq0 := projection_validQuery hG0 hG0w ha X Y hY hne hdisj
+  have hv := id_verdict_equiv_congr ht1 ht2 G G0 X Y hq hG0w (hproj.equiv hG0)
+  refine ⟨G, hG, hv, ?_⟩
+  rcases id_total ht1 G X Y hq with ⟨e, he⟩ | he <;> rcases id_total ht2 G0 X Y hq0 with ⟨e', he'⟩ | he' <;>
+    rw [he, he'] at hv ⊢ <;> simp [Except.isOk, Except.toBool] at hv ⊢
 
 /-! ## 3. `evans_simplify` (ADMG → LV-DAG, mark extra latents, simplify, read back) -/
 
@@ -253,6 +413,95 @@ theorem evans_id (fresh prime : Nat → Nat) (hinj : Function.Injective fresh) (
   obtain ⟨H, hH, hproj⟩ := evans_projection fresh prime hinj hp G hG ha []
   rw [markLatent_nil] at hproj
   exact ⟨H, hH, hproj.equiv (toLV_is_projection fresh hinj G hG hloop)⟩
+
+theorem evansSimplify_wf (fresh prime : Nat → Nat) (G : MG Nat) (extra : List Nat) (H : MG Nat)
+    (h : evansSimplify fresh prime G extra = .ok H) : H.WF := by
+  unfold evansSimplify at h
+  simp only [bind, Except.bind] at h
+  split at h
+  · cases h
+  · exact toMG?_wf _ H h
+
+/-- **`evans_id_verdict`**: ID gives the same verdict on `evans_simplify(G)` as on `G`, for every valid
+query and every pair of admissible topological sorters — no hypothesis that ID respects `__eq__` -/
+theorem evans_id_verdict (fresh prime : Nat → Nat) (hinj : Function.Injective fresh) (hp : ∀ n, n < prime n)
+    (G : MG Nat) (hG : G.WF) (ha : G.Acyclic) (hloop : ∀ e ∈ G.bi, e.1 ≠ e.2)
+    {t1 t2 : MG Name → Except Err (List Name)} (ht1 : TopoGood t1) (ht2 : TopoGood t2)
+    (X Y : List Nat) (hY : ∀ y ∈ Y, y ∈ G.nodes) (hne : Y ≠ []) (hdisj : ∀ y ∈ Y, y ∉ X) :
+    ∃ H, evansSimplify fresh prime G [] = .ok H ∧ (identify t1 H X Y).isOk = (identify t2 G X Y).isOk := by
+  obtain ⟨H, hH, heq⟩ := evans_id fresh prime hinj hp G hG ha hloop
+  have hq : ValidQuery G X Y := ⟨hG, MG.acyclic_ranked hG ha, hY, hne, hdisj⟩
+  refine ⟨H, hH, ?_⟩
+  exact (id_verdict_equiv_congr ht2 ht1 G H X Y hq (evansSimplify_wf _ _ _ _ _ hH) (MG.equiv_symm _ _ heq)).symm
+
+/-- with extra latents: the verdict on `evans_simplify(G, latents)` is the verdict on any latent
+projection `G0` of the LV-DAG of `G` with the extra nodes marked latent -/
+theorem evans_id_verdict_latents (fresh prime : Nat → Nat) (hinj : Function.Injective fresh) (hp : ∀ n, n < prime n)
+    (G : MG Nat) (hG : G.WF) (ha : G.Acyclic) (extra : List Nat) (G0 : MG Nat)
+    (hG0 : IsProjection ((ofMG fresh G).markLatent extra) G0) (hG0w : G0.WF)
+    {t1 t2 : MG Name → Except Err (List Name)} (ht1 : TopoGood t1) (ht2 : TopoGood t2)
+    (X Y : List Nat) (hY : ∀ y ∈ Y, ((ofMG fresh G).markLatent extra).Observed y) (hne : Y ≠ [])
+    (hdisj : ∀ y ∈ Y, y ∉ X) :
+    ∃ H, evansSimplify fresh prime G extra = .ok H ∧ (identify t1 H X Y).isOk = (identify t2 G0 X Y).isOk := by
+  obtain ⟨H, hH, hproj⟩ := evans_projection fresh prime hinj hp G hG ha extra
+  have hac : ((ofMG fresh G).markLatent extra).Acyclic := ofMG_acyclic fresh hinj G hG ha
+  have hHw := evansSimplify_wf _ _ _ _ _ hH
+  exact ⟨H, hH, id_verdict_equiv_congr ht1 ht2 H G0 X Y
+    (projection_validQuery hproj hHw hac X Y hY hne hdisj) hG0w (hproj.equiv hG0)⟩
+
+/-! ## 4. the consumer `taheri_design._get_result` (simplify, read off, run ID on `P(effect | do(cause))`) -/
+
+/-- **`_get_result`.**  On a well-formed acyclic LV-DAG with observed `cause ≠ effect` it never raises; the
+counts it reports are those of the input and of the simplified DAG; the ADMG it returns is the latent
+projection of the INPUT DAG; and its verdict `identifiable` is the verdict of ID on ANY latent projection
+`G0` of the input DAG (for every admissible topological sorter on either side). -/
+theorem design_result (prime : Nat → Nat) (hp : ∀ n, n < prime n) (D : LV) (hw : D.WF) (ha : D.Acyclic)
+    {topo : MG Name → Except Err (List Name)} (ht : TopoGood topo) (c e : Nat) (hc : D.Observed c)
+    (he : D.Observed e) (hce : c ≠ e) :
+    ∃ res r, D.getResult prime topo c e = .ok res ∧ D.simplify prime = .ok r ∧
+      res.preNodes = D.nodes.length ∧ res.preEdges = D.edges.length ∧
+      res.postNodes = r.graph.nodes.length ∧ res.postEdges = r.graph.edges.length ∧
+      r.graph.toMG? = .ok res.admg ∧ IsProjection D res.admg ∧
+      ∀ (G0 : MG Nat) (topo' : MG Name → Except Err (List Name)), IsProjection D G0 → G0.WF → TopoGood topo' →
+        res.identifiable = (identify topo' G0 [c] [e]).isOk := by
+  obtain ⟨r, hr⟩ := simplify_total prime hp D hw ha
+  obtain ⟨G, hG, hproj⟩ := simplify_projection prime hp D hw ha r hr
+  have hGw := toMG?_wf _ G hG
+  have hcG : c ∈ G.nodes := (hproj.nodes c).2 hc
+  have heG : e ∈ G.nodes := (hproj.nodes e).2 he
+  have hY : ∀ y ∈ [e], D.Observed y := by intro y hy; simp at hy; subst hy; exact he
+  have hdisj : ∀ y ∈ [e], y ∉ [c] := by intro y hy; simp at hy; subst hy; simpa using fun h => hce h.symm
+  have hq := projection_validQuery hproj hGw ha [c] [e] hY (by simp) hdisj
+  have key : ∀ b : Bool, b = (identify topo G [c] [e]).isOk →
+      ∀ (G0 : MG Nat) (topo' : MG Name → Except Err (List Name)), IsProjection D G0 → G0.WF → TopoGood topo' →
+        b = (identify topo' G0 [c] [e]).isOk := by
+    intro b hb G0 topo' h0 hw0 ht'
+    rw [hb]
+    exact id_verdict_equiv_congr ht ht' G G0 [c] [e] hq hw0 (hproj.equiv h0)
+  rcases id_total ht G [c] [e] hq with ⟨est, hest⟩ | hun
+  · refine ⟨⟨true, D.nodes.length, D.edges.length, r.graph.nodes.length, r.graph.edges.length, G⟩, r,
+      ?_, hr, rfl, rfl, rfl, rfl, hG, hproj, key true (by rw [hest]; rfl)⟩
+    unfold getResult
+    simp [hr, hG, hcG, heG, hest, bind, Except.bind]
+  · refine ⟨⟨false, D.nodes.length, D.edges.length, r.graph.nodes.length, r.graph.edges.length, G⟩, r,
+      ?_, hr, rfl, rfl, rfl, rfl, hG, hproj, key false (by rw [hun]; rfl)⟩
+    unfold getResult
+    simp [hr, hG, hcG, heG, hun, bind, Except.bind]
+
+/-- a cause or effect that is not an observed node of the (well-formed, acyclic) LV-DAG: `KeyError` -/
+theorem design_keyError (prime : Nat → Nat) (hp : ∀ n, n < prime n) (D : LV) (hw : D.WF) (ha : D.Acyclic)
+    (topo : MG Name → Except Err (List Name)) (c e : Nat) (h : ¬ D.Observed c ∨ ¬ D.Observed e) :
+    D.getResult prime topo c e = .error (.invalidInput "KeyError") := by
+  obtain ⟨r, hr⟩ := simplify_total prime hp D hw ha
+  obtain ⟨G, hG, hproj⟩ := simplify_projection prime hp D hw ha r hr
+  unfold getResult
+  by_cases hc : c ∈ G.nodes
+  · have he : e ∉ G.nodes := fun he => by
+      rcases h with h | h
+      · exact h ((hproj.nodes c).1 hc)
+      · exact h ((hproj.nodes e).1 he)
+    simp [hr, hG, hc, he, bind, Except.bind]
+  · simp [hr, hG, hc, bind, Except.bind]
 
 /-! ## non-vacuity: an LV-DAG on which every rule fires
 
@@ -281,9 +530,41 @@ example :
       some (some ([1, 2, 3, 4], [(1, 2), (1, 3), (1, 4)], [(2, 3), (2, 4), (3, 4)])) := by decide
 
 /-- non-vacuity of the separation clause: in `exampleDag`, `2` and `3` are d-connected given `∅`
-(walk `2 ← 10 → 11 → 3` through two latents) and `1`, `4` are d-connected given `∅` -/
-example : exampleDag.DConn (fun _ => False) 2 3 :=
-  ⟨true, .chainDown (.fork (.startUp (p := 10) (by unfold Edge; decide)) (fun h => h) (c := 11)
-    (by unfold Edge; decide)) (fun h => h) (c := 3) (by unfold Edge; decide)⟩
+(walk `2 ← 10 → 11 → 3` through two latents) -/
+theorem exampleDag_dconn : exampleDag.DConn (fun z => z ∈ ([] : List Nat)) 2 3 :=
+  ⟨true, .chainDown (.fork (.startUp (p := 10) (by unfold Edge; decide)) (by simp) (c := 11)
+    (by unfold Edge; decide)) (by simp) (c := 3) (by unfold Edge; decide)⟩
+
+/-- … hence (section 2c) by a simple d-connecting path in the DAG, and the C04 model says so on the DAG
+itself and on the graph read off the simplified DAG -/
+example : exampleDag.asMG.MConnPath 2 3 [] :=
+  (dconn_walk_iff_path exampleDag [] 2 3 (by decide) (by simp) (by simp)).1 exampleDag_dconn
+
+/-- a separation that holds: `1 → L → 2 → 3` with `L` latent; `1 ⟂ 3 | 2` in the DAG and in the projection -/
+def chainDag : LV := { nodes := [1, 2, 3, 10], edges := [(1, 10), (10, 2), (2, 3)], latent := [10] }
+
+example : chainDag.asMG.dSeparated 1 3 [2] = .ok true := by decide
+example : chainDag.asMG.dSeparated 1 3 [] = .ok false := by decide
+example :
+    ((chainDag.simplify (· + 100)).toOption.bind (fun r => r.graph.toMG?.toOption)).map
+      (fun G => ((G.dSeparated 1 3 [2]).toOption, (G.dSeparated 1 3 []).toOption, G.di, G.bi)) =
+      some (some true, some false, [(1, 2), (2, 3)], []) := by decide
+
+/-! non-vacuity of sections 2d and 4: `chainDag` satisfies the hypotheses, an admissible topological sorter
+exists (`ancTopo`, Lemmas/IdTopoAnc.lean), `1` and `3` are distinct observed nodes -/
+theorem chainDag_wf_acyclic : chainDag.WF ∧ chainDag.Acyclic :=
+  ⟨⟨by decide, by decide, by decide, by decide, rfl⟩,
+    acyclic_of_rank chainDag (fun n => if n = 1 then 0 else if n = 10 then 1 else if n = 2 then 2 else 3) (by decide)⟩
+
+example : TopoGood ancTopo := ancTopo_good
+
+example := design_result (· + 100) (fun n => by omega) chainDag chainDag_wf_acyclic.1 chainDag_wf_acyclic.2
+  ancTopo_good 1 3 ⟨by decide, by decide⟩ ⟨by decide, by decide⟩ (by decide)
+
+example (r : SimplifyResults) (h : chainDag.simplify (· + 100) = .ok r) (G0 : MG Nat)
+    (hG0 : IsProjection chainDag G0) (hG0w : G0.WF) :=
+  simplify_id_verdict (· + 100) (fun n => by omega) chainDag chainDag_wf_acyclic.1 chainDag_wf_acyclic.2 r h G0 hG0 hG0w
+    ancTopo_good ancTopo_good [1] [3] (by intro y hy; simp at hy; subst hy; exact ⟨by decide, by decide⟩)
+    (by simp) (by simp)
 
 end Y0.LV
